@@ -128,6 +128,10 @@ func kindErr(k string) error {
 		return io.ErrClosedPipe
 	case "wrappedeof":
 		return fmt.Errorf("verif: wrapped: %w", io.EOF)
+	case "enoent":
+		return &os.PathError{Op: "open", Path: "/dev/urandom", Err: syscall.ENOENT}
+	case "enosys":
+		return syscall.ENOSYS
 	}
 	return nil
 }
